@@ -196,6 +196,16 @@ func runMembership(c *Ctx, plan any) {
 		c.Count("inconclusive.no_quiescence", 1)
 		return
 	}
+	// C12: "only the offending connection may be closed".  Every message of
+	// this scenario is well-formed and legal at the time the client sends it
+	// (as far as the client can know); a connection that the server closes
+	// with "internal server error" belongs to a client that did nothing wrong.
+	for _, sc := range w.clients {
+		if sc.closeCode == 1011 {
+			c.Violation("C12.wellbehaved-closed", "the server closed the connection of client %s with an internal error (code %d %q) although the client only sent well-formed, legal messages (join, leave, moderation and setdata actions)", sc.id, sc.closeCode, sc.closeText)
+			return
+		}
+	}
 	// once activity stops every live member's list equals the membership
 	checked := 0
 	for _, g := range p.Groups {
